@@ -324,3 +324,48 @@ def is_fresh_expr(node: ast.AST, fresh_names: set[str], fresh_funcs: set[str] = 
         if isinstance(f, ast.Subscript):  # Payload[_L](...)
             return True
     return False
+
+
+def field_access(path: Path, e: ast.AST | None, index: int | None = None, depth: int = 6) -> tuple[str, tuple[str, ...]] | None:
+    """What ``e`` denotes as (root text, attribute path): a pattern capture ``case K(target=t)`` of subject ``s`` gives
+    ``('s', ('target',))``, so do the attribute ``s.target`` itself and a local last bound to either.  None when ``e``
+    is not a (copy of a) pure attribute chain."""
+    from .paths import env_at
+
+    if e is None or depth < 0:
+        return None
+    if isinstance(e, ast.NamedExpr):
+        e = e.value
+    chain: list[str] = []
+    cur = e
+    while isinstance(cur, ast.Attribute):
+        chain.append(cur.attr)
+        cur = cur.value
+    if not isinstance(cur, ast.Name):
+        return None
+    chain.reverse()
+    b = env_at(path, index).get(cur.id)
+    if isinstance(b, tuple) and b[0] == "capture":
+        root = field_access(path, b[1], index, depth - 1)
+        if root is None:
+            return None
+        return root[0], root[1] + tuple(b[2]) + tuple(chain)
+    if isinstance(b, ast.expr) and not (isinstance(b, ast.Name) and b.id == cur.id):
+        root = field_access(path, b, index, depth - 1)
+        if root is None:
+            return None
+        return root[0], root[1] + tuple(chain)
+    if b is not None:
+        return None
+    return cur.id, tuple(chain)
+
+
+def denotes(path: Path, e: ast.AST | None, subject: str, access: tuple[str, ...], index: int | None = None) -> bool:
+    """Does ``e`` denote ``<subject>.<access...>`` on this path?"""
+    fa = field_access(path, e, index)
+    if fa is None:
+        return False
+    sa = field_access(path, ast.parse(subject, mode="eval").body, index)
+    if sa is None:
+        return False
+    return fa[0] == sa[0] and fa[1] == sa[1] + tuple(access)
